@@ -43,23 +43,24 @@ type Ctx struct {
 	Overlay map[string][]byte
 	T0      time.Time
 
-	mu             sync.Mutex
-	violations     []Violation
-	known          []string
-	samples        []interface{}
-	cov            map[string]interface{}
-	assume         []string
-	kf             *KnownFindings
-	mismatch       int
-	replays        int
-	paths          int
-	steps          int64
-	programs       int
-	disagree       int
-	validated      int
-	refBatch       int
-	engineErrors   int
-	replayOverride func(p *Prog, f gosx.Failure) (ok bool, detail map[string]interface{}, handled bool)
+	mu                  sync.Mutex
+	violations          []Violation
+	known               []string
+	samples             []interface{}
+	cov                 map[string]interface{}
+	assume              []string
+	kf                  *KnownFindings
+	nonTerminationFails bool // lemma harnesses: exceeding the step/depth bound is a failed obligation (C14)
+	mismatch            int
+	replays             int
+	paths               int
+	steps               int64
+	programs            int
+	disagree            int
+	validated           int
+	refBatch            int
+	engineErrors        int
+	replayOverride      func(p *Prog, f gosx.Failure) (ok bool, detail map[string]interface{}, handled bool)
 }
 
 type Violation struct {
